@@ -66,6 +66,9 @@ def numCmp (op : BinOp) (a b : Val) : Option Bool :=
   | .float x, .float y => some (cmpF x y)
   | _, _ => none
 
+/-- cap (bytes) on strings built by concatenation / templates -/
+def maxStringLength : Nat := 1048576
+
 /-- one binary operator: (heap', result) -/
 def binOp (h : Heap) (ignoreDiv0 : Bool) (op : BinOp) (a b : Val) : Heap × Res Val :=
   let te : Heap × Res Val := (h, .err (typeErr op a b))
@@ -76,7 +79,8 @@ def binOp (h : Heap) (ignoreDiv0 : Bool) (op : BinOp) (a b : Val) : Heap × Res 
     | .int x, .float y => (h, .ok (.float (Float.ofInt x + y)))
     | .float x, .int y => (h, .ok (.float (x + Float.ofInt y)))
     | .float x, .float y => (h, .ok (.float (x + y)))
-    | .str x, .str y => (h, .ok (.str (x ++ y)))
+    | .str x, .str y =>
+      if x.utf8ByteSize + y.utf8ByteSize > maxStringLength then (h, .err "不能一次性创建过长的字符串") else (h, .ok (.str (x ++ y)))
     | .arr x, .arr y =>
       let l := h.arrOf x ++ h.arrOf y
       if l.length > 512 then (h, .err "不能一次性创建过长的数组")
